@@ -489,6 +489,9 @@ func (v *Verifier) applyContractNamed(s *State, fc *FuncContract, sig *types.Sig
 		reachableBefore = Solve(Script(append([]*Term{}, s.pc...), false), 5, false, false).Status != "unsat"
 	}
 	ev := &Eval{v: v, st: s, old: pre, env: env, mode: evalCall, fc: fc}
+	if calleeFn != nil {
+		ev.altPkg = fnPkg(calleeFn)
+	}
 	for _, c := range fc.Clauses {
 		if c.Kind == "requires" && !c.IsLoop {
 			if c.heldLock != nil {
@@ -625,7 +628,7 @@ func (v *Verifier) applyContractNamed(s *State, fc *FuncContract, sig *types.Sig
 			}
 		}
 	}
-	ev2 := &Eval{v: v, st: s, old: pre, env: env, mode: evalCall, fc: fc}
+	ev2 := &Eval{v: v, st: s, old: pre, env: env, mode: evalCall, fc: fc, altPkg: ev.altPkg}
 	if calleeFn != nil && calleeFn != v.top && calleeFn.Blocks != nil && isModulePkg(fnPkg(calleeFn)) && contractMentionsLocked(fc) {
 		// locked(e) in the callee's postconditions: the moment the callee took its own lock, not a lock of this function
 		la := pre.clone()
